@@ -66,7 +66,7 @@ def swLoop {Msg} (U : Unpack Msg) : Nat → Bytes → List Msg → Bytes × List
     if n > buf.length then (buf, acc, .alive) else
     match U (byteAt buf 1) buf 0 with
     | .none => swLoop U fuel (buf.drop n) acc                          -- ERR_NO_UNPACKER → error reply, skip n
-    | .raise => swLoop U fuel (buf.drop n) acc                         -- decoder exception → logged, skip n
+    | .raise => swLoop U fuel (buf.drop n) acc                         -- decoder exception → BAD_LEN error reply, skip n
     | .ok (off', m) =>
       if off' ≠ n then swLoop U fuel (buf.drop n) acc                  -- ERR_BAD_LENGTH → error reply, skip n
       else swLoop U fuel (buf.drop n) (acc ++ [m])
